@@ -432,8 +432,10 @@ fn w_replace(es: usize, rc: bool, has_key: bool, old_parts: usize, len: usize, c
 	let mut e1: [u8; VES] = kani::any();
 	let mut e2: [u8; VES] = kani::any();
 	if old_parts >= 2 {
+		// the head of the stored chain carries the plain or the compressed head marker (fd ff / fd 7f): both are links
+		let old_compressed: bool = kani::any();
 		e0[0] = 0xfd;
-		e0[1] = 0xff;
+		e0[1] = if old_compressed { 0x7f } else { 0xff };
 		put_u64(&mut e0, 2, OLD[1]);
 	} else {
 		e0[0] = 7;
